@@ -883,6 +883,10 @@ def run(ctx):
                     impl.append(("walk", o2, data, dp2.used))
                 except Exception as e:  # noqa
                     impl.append("raise:" + type(e).__name__)
+                # round 5: the same call against the loop-level walk on the source's expressions
+                reqs.append(f"walk_sk {nT} {enc_vec(draws)} {enc_mats(tw, enc_imat)}")
+                impl.append(impl[-1])
+                ctx.count("gen:_twin_surrogates_s-loop-level")
             else:
                 ctx.count("twins:outside-domain-raises")
             ctx.case(("twin_s", data.tobytes().hex(), dim, delay, str(thr), md, enc_vec(draws[:8])),
@@ -961,6 +965,10 @@ def run(ctx):
                 impl.append(enc_imat(tw))
             reqs.append(f"walk_r {NN} {ns_eff} {enc_vec(draws)} {enc_imat(tw[:NN])}")
             impl.append(("walk3", out, np.array(rp.embedding), used))
+            # round 5: the loop-level walk on the source's expressions (with the trailing extra list)
+            reqs.append(f"walk_rk {NN} {ns_eff} {enc_vec(draws)} {enc_imat(tw)}")
+            impl.append(("walk3", out, np.array(rp.embedding), used))
+            ctx.count("gen:_twin_surrogates_r-loop-level")
             npairs = sum(len(x) for x in tw)
             ctx.case(("twin_r", ts.tobytes().hex(), str(kw), md, ns, enc_vec(draws[:8])),
                      NN >= 4 and npairs > 0)
